@@ -5,7 +5,7 @@ own property report it when run on a scratch copy of /repo with the patch applie
 Writes seeded/MATRIX.txt and the field detected_by_own_check of each meta.json."""
 import concurrent.futures as cf
 import json, os, re, subprocess, sys
-V = '/verif'
+V = os.path.dirname(os.path.dirname(os.path.abspath(__file__)))
 args = sys.argv[1:]
 jobs = 6
 if args[:1] == ['-j']:
